@@ -13,4 +13,5 @@ START=$(date +%s)
 H2TSIM_VERIF_DIR="$OUT" /verif/bin/check "$PROP" "$TIER" "$@" 2>&1 | cut -c1-400 | grep -v "^  (" | head -40
 RC=$?
 git -C /repo checkout -- .
+( cd /verif/sim && cargo build --release --offline >/dev/null 2>&1 )   # do not leave a binary built from the seeded tree behind
 echo "elapsed $(( $(date +%s) - START ))s; /repo reverted: $(git -C /repo status --short | wc -l) modified files"
